@@ -79,7 +79,7 @@ def check_case(spec):
             env = dict(os.environ, NUMBA_NUM_THREADS=str(nt), PYTHONHASHSEED=hs, TMPDIR=tmpd,
                        PYTHONPATH=os.pathsep.join([REPO_DIR, VERIF_DIR]), OMP_NUM_THREADS=str(nt))
             out_name = ["out.h5", "another name.h5", os.path.join("deep", "er", "o.h5")][i % 3]
-            procs.append(subprocess.Popen([sys.executable, "-m", "vt.c09_child", sp, out_name], cwd=wd, env=env,
+            procs.append(subprocess.Popen([sys.executable, "-m", "vt.c09_child", sp, out_name] + (["repeat"] if i == 1 else []), cwd=wd, env=env,
                                           stdout=subprocess.PIPE, stderr=subprocess.PIPE, text=True))
         results = []
         try:
@@ -112,6 +112,8 @@ def check_case(spec):
             bad = [j for j, (a, b) in enumerate(zip(o["frames"], ref["frames"])) if a != b]
             res.fail("C09.frames", f"recorded data differ between {spec['threads'][0]} and {spec['threads'][i]} threads: first differing frame {bad[:1]}, "
                      f"{o['nframes']} vs {ref['nframes']} frames, {o['nsteps']} vs {ref['nsteps']} steps")
+        if o.get("again") and o["again"] != ref["file"]:
+            res.fail("C09.repeat_in_process", "the same simulation repeated in the same process (same device and parameter objects, another output file) gives different recorded data")
         if o["post"] != ref["post"]:
             res.fail("C09.postprocessing", f"fields computed from the solution differ between {spec['threads'][0]} and {spec['threads'][i]} threads")
     return res
